@@ -414,7 +414,8 @@ pub fn finish(meta: &CheckMeta, tier: Tier, started: Instant, mut report: Report
         "wall_s": started.elapsed().as_secs_f64(),
         "violations": new_violations.len(),
     });
-    let ev_dir = Path::new(VERIF_DIR).join("evidence");
+    // (VERIF_EVIDENCE_DIR redirects the evidence of exploratory runs away from the committed directory)
+    let ev_dir = std::env::var("VERIF_EVIDENCE_DIR").map(PathBuf::from).unwrap_or_else(|_| Path::new(VERIF_DIR).join("evidence"));
     let _ = std::fs::create_dir_all(&ev_dir);
     std::fs::write(ev_dir.join(format!("{property}.json")), serde_json::to_string_pretty(&evidence).unwrap()).expect("write evidence");
 
